@@ -117,7 +117,7 @@ func compileObs(src string) (*jmespath.JMESPath, Obs) {
 }
 
 type replayer struct {
-	progress int64       // number of API calls finished (atomic)
+	progress int64        // number of API calls finished (atomic)
 	cur      atomic.Value // description of the call in flight (violation template)
 	sum      replaySummary
 	seen     map[uint64]struct{}
@@ -192,6 +192,13 @@ func (r *replayer) runCase(fam string, c *caseRec, docs []interface{}, docsTagge
 		if want == "ok" && co.Kind != "ok" {
 			r.add(mk("compile-rejected", -1, want, co.String()))
 			continue
+		}
+		if si == 0 && c.N >= 2 && (want == "err" || len(c.Allowed) == 0) {
+			k := hashKey(src, "compile")
+			if _, dup := r.seen[k]; !dup {
+				r.seen[k] = struct{}{}
+				r.sum.Nontrivial++
+			}
 		}
 		if want == "err" {
 			if co.Kind != "err" {
